@@ -367,6 +367,34 @@ func (c *client) sendErrorToAll(err error) {
 	c.mutex.Unlock()
 }
 
+// stopReadLoopWithError fails all pending executions and marks the read loop as stopped in one critical section,
+// so that an Execute that registers afterwards starts a new read loop instead of waiting for a loop that is
+// about to exit.
+func (c *client) stopReadLoopWithError(err error) {
+	result := NewErrorExecutionResult(err)
+	c.mutex.Lock()
+	defer c.mutex.Unlock()
+	for runID := range c.runningStepResultEntries {
+		c.sendExecutionResult(runID, result)
+	}
+	c.readLoopRunning = false
+}
+
+// stopReadLoopIfIdle marks the read loop as stopped if no execution is waiting for a result. The check and the
+// mark happen under one lock hold: otherwise an Execute could register in between, see a running loop, and wait
+// forever for a result nobody will read.
+func (c *client) stopReadLoopIfIdle() bool {
+	c.mutex.Lock()
+	defer c.mutex.Unlock()
+	for _, resultEntry := range c.runningStepResultEntries {
+		if resultEntry.result == nil {
+			return false
+		}
+	}
+	c.readLoopRunning = false
+	return true
+}
+
 func (c *client) handleWorkDoneMessage(runtimeMessage DecodedRuntimeMessage) {
 	var doneMessage WorkDoneMessage
 	var result ExecutionResult
@@ -414,7 +442,7 @@ func (c *client) handleErrorMessage(runtimeMessage DecodedRuntimeMessage) bool {
 	resultMsg := fmt.Errorf("step with run ID %q sent error message: %s", runtimeMessage.RunID, errorMessageStr)
 	c.logger.Errorf(resultMsg.Error())
 	if errMessage.ServerFatal {
-		c.sendErrorToAll(resultMsg)
+		c.stopReadLoopWithError(resultMsg)
 		return true // It's server fatal, so this is the last message from the server.
 	} else if errMessage.StepFatal {
 		if runtimeMessage.RunID == "" {
@@ -428,27 +456,11 @@ func (c *client) handleErrorMessage(runtimeMessage DecodedRuntimeMessage) bool {
 	return false
 }
 
-func (c *client) hasEntriesRemaining() bool {
-	c.mutex.Lock()
-	defer c.mutex.Unlock()
-	for _, resultEntry := range c.runningStepResultEntries {
-		// If any result is nil then we're not done.
-		// Context: There is a fraction of time when the entry is still in the map
-		// following completion. It is set to a non-nil value when done.
-		if resultEntry.result == nil {
-			return true
-		}
-	}
-	return false
-}
-
 func (c *client) executeReadLoop(cborReader *cbor.Decoder) {
-	defer func() {
-		c.mutex.Lock()
-		defer c.mutex.Unlock()
-		c.readLoopRunning = false
-		c.wg.Done()
-	}()
+	// Every exit path below marks the loop as stopped itself, in the same critical section in which it decides to
+	// stop (see stopReadLoopIfIdle); doing it here, later, would leave a window in which a new Execute relies on a
+	// loop that is already on its way out.
+	defer c.wg.Done()
 	// Loop and get all messages
 	// The message is generic, so we must find the type and decode the full message next.
 	for {
@@ -462,7 +474,7 @@ func (c *client) executeReadLoop(cborReader *cbor.Decoder) {
 				err,
 			)
 			// This is fatal since the entire structure of the runtime message is invalid.
-			c.sendErrorToAll(fmt.Errorf("failed to read or decode runtime message (%w)", err))
+			c.stopReadLoopWithError(fmt.Errorf("failed to read or decode runtime message (%w)", err))
 			return
 		}
 		switch runtimeMessage.MessageID {
@@ -482,7 +494,7 @@ func (c *client) executeReadLoop(cborReader *cbor.Decoder) {
 			)
 		}
 		// The non-error exit condition is having no more entries remaining.
-		if !c.hasEntriesRemaining() {
+		if c.stopReadLoopIfIdle() {
 			return
 		}
 	}
